@@ -33,7 +33,7 @@ STUB = ["wall clock", "uuid source", "file system under FileAdapter", "SdSimulat
 ASSUMPTIONS = ["automatic OPTIONS answers are Flask's own and excluded", "credential shapes that contain the token as a whole word are not sent (no verdict)",
                "states are sampled, the intruder product per state is complete"]
 FAULT_KINDS = ["unauthorised_request"]
-PROBES = ["authorised_reads_before_burst", "second_server_in_process", "intruder_while_authorised_request_in_flight", "authorised_request_failed_before_burst", "state_live_session", "state_locked_session", "state_expired_externalised", "state_no_instances",
+PROBES = ["authorised_admin_requests_before_burst", "authorised_reads_before_burst", "second_server_in_process", "intruder_while_authorised_request_in_flight", "authorised_request_failed_before_burst", "state_live_session", "state_locked_session", "state_expired_externalised", "state_no_instances",
           "authorised_twin_request_changes_state", "malformed_header_500"]
 EXHAUSTIVE = {"quick": False, "thorough": False}
 
@@ -109,6 +109,10 @@ def generate(spec):
         # an authorised client reads everything that can be read (every GET rule, with the live id where the rule has
         # one): whatever the server remembers of these exchanges must not be handed to a client without the token
         ops.append({"op": "auth_reads"})
+    if rng.random() < 0.5:
+        # an authorised operator uses the administrative routes (whole-server save and load, keep-alive): afterwards
+        # the server still wants the token
+        ops.append({"op": "auth_admin", "which": rng.sample(["load_state", "save_state", "keep_alive"], rng.randint(1, 3))})
     if rng.random() < 0.35:
         # another BptkServer object in the same process (same import name), configured with another token or with none
         ops.append({"op": "second_server", "token": rng.choice([None, "0therTok"])})
@@ -117,7 +121,7 @@ def generate(spec):
                     "sched": {"kind": "random", "seed": rng.randrange(2**32), "p": rng.choice([0.05, 0.2, 0.5])}})
     rng.shuffle(ops)
     # keep per-instance order (start < begin < step/hold/expire)
-    order = {"start": 0, "begin": 1, "step": 2, "hold_stream": 3, "expire": 4, "run": 2, "auth_fail": 2, "concurrent_intruders": 2, "second_server": 2, "auth_reads": 2}
+    order = {"start": 0, "begin": 1, "step": 2, "hold_stream": 3, "expire": 4, "run": 2, "auth_fail": 2, "concurrent_intruders": 2, "second_server": 2, "auth_reads": 2, "auth_admin": 2}
     by = {}
     for o in ops:
         by.setdefault(o.get("name", "_"), []).append(o)
@@ -183,6 +187,21 @@ def _auth_op(w, st, o, held):
         # what the OTHER server accepts must not matter to the first one; use it once so that it is really alive
         rr = other.test_client().get("/healthy")
         return Resp(rr.status_code, rr.get_data(as_text=True))
+    if op == "auth_admin":
+        from worlds.server_world import Resp
+        seen = []
+        for wh in o["which"]:
+            try:
+                if wh == "load_state":
+                    rr = w.post("/load-state")
+                elif wh == "save_state":
+                    rr = w.get("/save-state")
+                else:
+                    rr = w.post("/%s/keep-alive" % st["ids"].get("live", "feedfacefeedface"))
+                seen.append([wh, rr.status])
+            except Exception as e:      # a view that returns nothing (no adapter configured) is an error of the authorised request only
+                seen.append([wh, "exc:" + type(e).__name__])
+        return Resp(200, json.dumps(seen))
     if op == "auth_reads":
         from worlds.server_world import Resp
         seen = []
@@ -389,6 +408,8 @@ def _history(case, with_bursts, log, res):
                     responses.append([n, o["op"], r.status, text])
                     if o["op"] == "second_server" and with_bursts:
                         res.probe("second_server_in_process")
+                    if o["op"] == "auth_admin" and with_bursts and any(b > n for b in case["bursts"]):
+                        res.probe("authorised_admin_requests_before_burst")
                     if o["op"] == "auth_reads" and with_bursts and any(b > n for b in case["bursts"]):
                         res.probe("authorised_reads_before_burst")
                     if o["op"] == "auth_fail" and with_bursts:
